@@ -33,7 +33,7 @@ class Resolver:
         want = blob_data(b)
         if len(want) != len(data):
             return ('bad', 'length', b.id, len(data), len(want))
-        if b.bit:
+        if b.bit or b.baked:
             if data[:8] == want[:8] and data[64:] == want[64:]:
                 return ('blob', b.id)
             return ('bad', 'bytes-bit', b.id)
@@ -95,6 +95,11 @@ def read_both(iso, kw, pexc):
             return d1, None
         raise
     if d1 != d2:
+        if len(d1) == len(d2) and d1[:8] == d2[:8] and d1[64:] == d2[64:]:
+            # differs only inside the boot-info-table window (bytes 8..63): which
+            # of the two the stream route shows before mastering is not stated
+            # anywhere (C11 judges the table on the documented read-back route)
+            return d1, None
         return d1, ('route-mismatch', len(d1), len(d2))
     return d1, None
 
@@ -234,3 +239,26 @@ def compare_views(expected, observed):
         if ns not in expected:
             out.append((ns, 'namespace-extra', None, None, None))
     return out
+
+
+def _keykind(entry, ns):
+    if entry is None:
+        return '-'
+    k = entry[2] if ns in ('iso', 'joliet') else entry[1]
+    if k is None:
+        return 'none'
+    if k[0] == 'bad':
+        return 'bad.' + str(k[1])
+    return k[0]
+
+
+def mismatch_sig(mm):
+    """A signature specific enough to tell two defects apart and stable under
+    minimisation: (namespace, mismatch kind, entry kind, expected content kind -> observed)."""
+    ns, kind, path, ev, ov = mm
+    ek = (ev or ov)[0] if (ev or ov) else '-'
+    if kind == 'bytes':
+        return (ns, kind, ek, _keykind(ev, ns) + '->' + _keykind(ov, ns))
+    if kind in ('missing', 'extra'):
+        return (ns, kind, ek, _keykind(ev or ov, ns))
+    return (ns, kind, ek)
